@@ -46,6 +46,10 @@ BasisOK(e) ==
         LET v == e.pyvals[r] w == DBasis(t, v.i, k, v.m, e.xs[v.q])
             kind == IF v.fn = "ppdnev_single" THEN "F" ELSE IF v.fn = "ppdnev_single_dual" THEN "D1" ELSE "D2"
         IN /\ IsNum(v.res) /\ v.res.k = kind /\ NamesOf(v.res) = {} /\ FClose(v.res.re, w.v, w.s))
+  \* the Python-facing free functions bsplev_single / bspldnev_single are the core functions: for every basis index
+  \* (the last included), every derivative order, the recorded value is the core function's, bit for bit
+  /\ ("pyfree" \in DOMAIN e => \A r \in 1..Len(e.pyfree) :
+        LET v == e.pyfree[r] IN v.o = "ok" /\ v.v = e.vals[v.i + 1][v.m + 1][v.q])
 
 \* the dual-abscissa entry points: value D^m B_i(x), first order D^(m+1) B_i * dx, second order D^(m+1) B_i * d2x +
 \* D^(m+2) B_i * dx dx^T (chain rule on the piecewise polynomial), kind and variable list of the abscissa kept
